@@ -79,6 +79,18 @@ def run(ctx):
   ctx.check(bool(chain) and aerr, 'C19.own-imports', construct(rsf), 'later components are followed as attributes; a miss is an AttributeError',
             'attribute-chain resolution changed', rsf.loc(), instance='attributes')
 
+  lk = [cc for cc in walk_local(gc.node) if isinstance(cc, ast.Call) and prog.resolve_call(gc, cc) == 'config._inverse_lookup']
+  okx = bool(lk) and all(len(cc.args) == 1 and not any(k.arg == 'allow_decorators' and not (isinstance(k.value, ast.Constant) and k.value.value is False) for k in cc.keywords)
+                         and u(cc.args[0]) == 'attr_values[-1]' for cc in lk)
+  ctx.check(okx, 'C19.exact-object', construct(gc), 'the resolved object itself is looked up (decorated wrappers of a registered function are objects of their own)',
+            'the lookup of the resolved object accepts decorators of an already registered function: a name that resolves to a functools.wraps wrapper is '
+            'configured as the inner function, not as the exact object the name denotes', gc.loc(), instance='lookup-exact')
+  msf = ctx.func('config.ImportManager.minimal_selector')
+  nm = [a for a in walk_local(msf.node) if isinstance(a, ast.Assign) and u(a.targets[0]) == 'name']
+  okq = bool(nm) and all(u(a.value) == 'configurable_.wrapped.__qualname__' for a in nm)
+  ctx.check(okq, 'C19.unique-names', construct(msf), 'without an import source a selector is <module selector>.<__qualname__> (nested classes and methods keep their path)',
+            'emitted selectors use `%s` instead of the qualified name: nested classes / methods are emitted as names that do not resolve' % [u(a.value) for a in nm],
+            msf.loc(), instance='qualname')
   # ---- C19.guards
   pi = c.methods['process_import']
   g3, facts3 = std_facts(prog, pi)
